@@ -34,6 +34,7 @@ type c05Ent struct {
 	del      bool
 	umeta    byte
 	internal bool
+	exp      uint64
 }
 
 type c05DB struct {
